@@ -10,3 +10,11 @@ open IrVerif.SymExpr
 #print axioms IrVerif.SymExpr.C16_eval_free
 #print axioms IrVerif.SymExpr.C16_int_ops
 #print axioms IrVerif.SymExpr.C16_int_eval
+#print axioms IrVerif.SymExpr.C16_overload_sem
+#print axioms IrVerif.SymExpr.C16_overload_dispatch
+#print axioms IrVerif.SymExpr.C16_shape_evaluate
+#print axioms IrVerif.SymExpr.C16_simplify_guard
+#print axioms IrVerif.SymExpr.C16_eq_hash
+#print axioms IrVerif.SymExpr.C16_parser_total
+#print axioms IrVerif.SymExpr.C16_tokenize_classes
+#print axioms IrVerif.SymExpr.C16_print_parse_sympy_partial
